@@ -134,16 +134,18 @@ def chars_of(t):
     return "".join(names.get(c, c) for c in cs) or "none"
 
 
-def classify(args, follower, lead, sep, sym):
+def classify(args, follower, lead, sep, sym, preserve=False):
     """shrink a violating line (to one argument, then character by character while it still fails in
-    any way) and sign it:  style : special chars of the minimal text : position : symptom"""
+    any way - with `preserve`: while it still fails in the same way) and sign it:
+    style : special chars of the minimal text : position : symptom"""
     # 1. which single argument fails on its own?
+    sym0 = sym
     fol_used = follower
     cand = None
     for i, (t, s) in enumerate(args):
         for f in ([""] if follower == "" else ["", follower]):
             _, sy = run_case([(t, s)], f)
-            if sy and sy != "TIMEOUT":
+            if sy and sy != "TIMEOUT" and (not preserve or sy == sym0):
                 cand, fol_used, sym = (t, s), f, sy
                 break
         if cand:
@@ -163,7 +165,7 @@ def classify(args, follower, lead, sep, sym):
             if s not in styles_for(t2):
                 continue
             _, sy = run_case([(t2, s)], fol_used)
-            if sy and sy != "TIMEOUT":
+            if sy and sy != "TIMEOUT" and (not preserve or sy == sym):
                 t, sym, changed = t2, sy, True
                 break
     pos = "any" if fol_used == "" else "before" + fol_used.strip().split(" ")[0]
@@ -185,11 +187,21 @@ def esc_family(t):
         return "escaped-star-is-globbed"
     if t.startswith("~"):
         return "escaped-leading-tilde-is-expanded"
-    if t.endswith("&"):
+    if t == "&":
         return "escaped-ampersand-as-last-word-backgrounds"
     if "{" in t and "," in t and "}" in t and t.index("{") < t.rindex("}"):
         return "escaped-braces-are-expanded"
     return None
+
+
+_known_sigs = None
+
+
+def _known():
+    global _known_sigs
+    if _known_sigs is None:
+        _known_sigs = set(common.load_findings("C01")[0])
+    return _known_sigs
 
 
 def judge(case):
@@ -202,6 +214,13 @@ def judge(case):
     if sym == "TIMEOUT":
         return ("inconclusive", "timeout without diagnosis", res)
     sig, minimal = classify(args, follower, lead, sep, sym)
+    if sig in _known():
+        # shrinking freely may have walked from this failure to a smaller line that fails for a reason already listed:
+        # shrink again, keeping the way it fails, and sign that
+        sig2, minimal2 = classify(args, follower, lead, sep, sym, preserve=True)
+        if sig2 != sig:
+            res["signature_when_shrunk_freely"] = sig
+            sig, minimal = sig2, minimal2
     res["symptom"] = sym
     res["minimal_line"] = minimal
     return ("violated", sig, res)
